@@ -144,4 +144,16 @@ def specPlan {α : Type} (T : Trav α) (w : WalkCfg) (F : GF) (p n k : Nat) (a :
 def specWhole {α : Type} (T : Trav α) (w : WalkCfg) (F : GF) (pe : List Char) (a : α) : Option (List Call) :=
   (specPlan T w F 0 1 0 a).map (T.pre 0 pe a ++ ·)
 
+/-! ### `summary()["leaves"]` -/
+
+/-- Model of `[n for n, d in parse_tree.out_degree() if d == 0]` restricted to the ids `ids` -/
+def outLeaves (es : List Edge) (ids : List Nat) : List Nat :=
+  ids.filter (fun x => (es.filter (fun e => e.1 == x)).isEmpty)
+
+/-- Spec: ids (pre-order numbering from `n`) of the residues of a forest that carry no sub-forest -/
+def leafIds : GF → Nat → List Nat
+  | .nil, _ => []
+  | .cons _ _ kids rest, n =>
+    (match kids with | .nil => [n] | _ => []) ++ leafIds kids (n + 1) ++ leafIds rest (n + 1 + kids.size)
+
 end Gly.Plan
